@@ -10,6 +10,7 @@ import (
 	"path/filepath"
 	"sort"
 	"strings"
+	vcorpus "verif/corpus"
 
 	"github.com/goplus/xgo/ast"
 	"github.com/goplus/xgo/parser"
@@ -159,7 +160,7 @@ func tokenSpans(src string) []span {
 func neighbours(src string, f func(string)) {
 	sp := tokenSpans(src)
 	for i, s := range sp {
-		f(src[:s.off] + src[s.end:])                        // delete
+		f(src[:s.off] + src[s.end:])                          // delete
 		f(src[:s.end] + " " + src[s.off:s.end] + src[s.end:]) // duplicate
 		for _, a := range alpha {
 			f(src[:s.off] + a + src[s.end:])       // replace
@@ -184,6 +185,16 @@ func main() {
 		maxTok, maxSeed = 4, 1500
 	}
 	seeds := append([]string{}, handSeeds...)
+	have := map[string]bool{}
+	for _, s := range seeds {
+		have[s] = true
+	}
+	for _, s := range vcorpus.HandSeeds { // the shared seed list grows with every strengthening of the front-end checks
+		if !have[s] {
+			have[s] = true
+			seeds = append(seeds, s)
+		}
+	}
 	seeds = append(seeds, corpus(maxSeed)...)
 	A := len(alpha)
 	nE1, nFlag, nByte := A+1, A+1, len(byteAlpha)
